@@ -191,6 +191,8 @@ func (u *Units) unify(a, b Deg, what string) {
 // Typing of terms.
 
 type unitCtx struct {
+	accDeg Deg
+	hasAcc bool
 	c      *Ctx
 	u      *Units
 	terms  *shape.Terms
@@ -234,6 +236,8 @@ func (x *unitCtx) term(e sym.Expr) Deg {
 			return dZero()
 		case strings.HasPrefix(t.Name, "#"):
 			return dZero()
+		case t.Name == "acc" && x.hasAcc:
+			return x.accDeg
 		}
 		return u.fresh("var")
 	case sym.Neg:
@@ -277,6 +281,17 @@ func (x *unitCtx) term(e sym.Expr) Deg {
 
 func (x *unitCtx) call(t sym.Call) Deg {
 	u := x.u
+	if t.Fn == "scan" && len(t.Args) == 2 {
+		// a running fold: acc' = body(acc, elements), started at init
+		saved, had := x.accDeg, x.hasAcc
+		x.accDeg, x.hasAcc = u.fresh("acc"), true
+		acc := x.accDeg
+		body := x.term(t.Args[0])
+		x.accDeg, x.hasAcc = saved, had
+		u.unify(acc, body, "the accumulated value and its update in "+short(sym.String(t), 70))
+		u.unify(acc, x.term(t.Args[1]), "the accumulated value and its start value")
+		return acc
+	}
 	var args []Deg
 	for _, a := range t.Args {
 		args = append(args, x.term(a))
